@@ -133,6 +133,15 @@ Proof.
   intros y Hy. apply H. cbn. tauto.
 Qed.
 
+Lemma sumf_scale : forall {X} (c : nat) (f : X -> nat) l, sumf (fun x => c * f x) l = c * sumf f l.
+Proof. intros X c f l. induction l as [ | x t IH ]; [cbn; lia | ]. unfold sumf in *. cbn [fold_right]. rewrite IH. lia. Qed.
+
+Lemma sumf_le : forall {X} (f h : X -> nat) l, (forall x, f x <= h x) -> sumf f l <= sumf h l.
+Proof.
+  intros X f h l H. induction l as [ | x t IH ]; [cbn; lia | ]. unfold sumf in *. cbn [fold_right].
+  specialize (H x). lia.
+Qed.
+
 Lemma sumf_map_id : forall {X} (h : X -> nat) l, sumn (map h l) = sumf h l.
 Proof. intros X h l. unfold sumn. rewrite sumf_map. reflexivity. Qed.
 
@@ -423,5 +432,147 @@ Section ClusterEq.
         rewrite Z.mul_1_r in E. assert (d * (d - 1) = 0) by lia. nia. }
       rewrite Hnz. cbn [oval]. eexists. split; [reflexivity | ].
       rewrite Qred_correct, Hb. reflexivity.
+  Qed.
+
+  (* ---------------- transitivity ---------------- *)
+  Lemma insert_absent_T : forall {V} (m : list (T * V)) k v,
+    ~ In k (map fst m) -> insert teqb k v m = m ++ [(k, v)].
+  Proof.
+    intros V. induction m as [ | [k0 v0] t IH ]; intros k v Hk; cbn [insert app]; [reflexivity | ].
+    destruct (teqb k k0) eqn:E.
+    - apply teqb_spec in E. subst. exfalso. apply Hk. cbn. tauto.
+    - rewrite IH; [reflexivity | ]. intros H. apply Hk. cbn. tauto.
+  Qed.
+
+  Lemma collect_map_nodup_T : forall {V} (l : list (T * V)),
+    NoDup (map fst l) -> collect_map teqb l = l.
+  Proof.
+    intros V l. unfold collect_map.
+    assert (G : forall (l m0 : list (T * V)), NoDup (map fst (m0 ++ l)) ->
+              fold_left (fun m kv => insert teqb (fst kv) (snd kv) m) l m0 = m0 ++ l).
+    { clear l. induction l as [ | [k v] t IH ]; intros m0 Hnd; cbn [fold_left].
+      - rewrite app_nil_r. reflexivity.
+      - cbn [fst snd]. rewrite insert_absent_T.
+        + rewrite IH; rewrite <- app_assoc; [reflexivity | exact Hnd].
+        + rewrite map_app in Hnd. cbn [map fst] in Hnd. apply NoDup_remove_2 in Hnd.
+          intros H. apply Hnd. rewrite in_app_iff. tauto. }
+    intros H. apply (G l []). exact H.
+  Qed.
+
+  (* with node_names = None the records come in node order, one per node *)
+  Lemma tads_compose : forall (fullmap : list (T * list T)) l r tads,
+    Forall2 (fun n p => (do hs <- neighbor_name_set teqb g n; Ok (n, hs)) = Ok p) l r ->
+    Forall2 (fun kv t => tad_for_node teqb (fst kv) (snd kv) fullmap = Ok t) r tads ->
+    Forall2 (fun v t => tad_of teqb g fullmap v = Some t) l tads.
+  Proof.
+    intros fullmap l r tads Ek. revert tads. induction Ek as [ | v p l r Hvp _ IH ]; intros tads H.
+    - inversion H. constructor.
+    - inversion H as [ | p' t r' ts Hpt Hts ]; subst. constructor; [ | apply IH; exact Hts].
+      unfold tad_of, nset.
+      destruct (neighbor_name_set teqb g v) as [hs | | | ]; cbn [bind] in Hvp; try discriminate.
+      inversion Hvp; subst p. cbn [fst snd] in Hpt. rewrite Hpt. reflexivity.
+  Qed.
+
+  Lemma tads_in_order : forall tads full,
+    get_triangles_and_degrees teqb g None = Ok tads ->
+    get_neighbors_of_nodes teqb None g = Ok full ->
+    Forall2 (fun v t => tad_of teqb g full v = Some t) names tads.
+  Proof.
+    intros tads full H Hfull. unfold get_triangles_and_degrees in H. rewrite Hfull in H. cbn [bind] in H.
+    unfold get_neighbors_of_nodes in Hfull. cbn [requested_names] in Hfull. fold names in Hfull.
+    destruct (omapM _ names) as [kvs | | | ] eqn:Ek; cbn [bind] in Hfull; try discriminate.
+    apply omapM_Forall2 in Ek.
+    assert (Hkeys : map fst kvs = names).
+    { clear - Ek. induction Ek as [ | v p l r Hvp _ IH ]; cbn [map]; [reflexivity | ]. rewrite IH.
+      cbn beta in Hvp. destruct (neighbor_name_set teqb g v); cbn [bind] in Hvp; try discriminate.
+      inversion Hvp. reflexivity. }
+    rewrite collect_map_nodup_T in Hfull by (rewrite Hkeys; apply names_NoDup).
+    inversion Hfull; subst full. clear Hfull. apply omapM_Forall2 in H.
+    apply (tads_compose kvs names kvs tads Ek H).
+  Qed.
+
+  Lemma sum_over_tads : forall (f : tad -> nat) (h : T -> nat) full tads,
+    Forall2 (fun v t => tad_of teqb g full v = Some t) names tads ->
+    (forall v t, In v names -> tad_of teqb g full v = Some t -> f t = h v) ->
+    sumf f tads = sumf h names.
+  Proof.
+    intros f h full tads HF Hfh. induction HF as [ | v t l r Hvt _ IH ]; [reflexivity | ].
+    unfold sumf in *. cbn [fold_right]. rewrite IH.
+    - rewrite (Hfh v t (or_introl eq_refl) Hvt). reflexivity.
+    - intros v' t' Hv'. apply Hfh. cbn. tauto.
+  Qed.
+
+  Lemma pred_mul_even : forall d, d * (d - 1) = 2 * (d * (d - 1) / 2).
+  Proof.
+    intros d. assert (H : exists m, d * (d - 1) = 2 * m).
+    { induction d as [ | d IH ]; [exists 0; reflexivity | ]. destruct IH as [m Hm].
+      destruct d as [ | d' ]; [exists 0; reflexivity | ]. exists (m + S d').
+      cbn [Nat.sub] in *. rewrite Nat.sub_0_r in *. nia. }
+    destruct H as [m Hm]. rewrite Hm. rewrite (Nat.mul_comm 2 m), Nat.div_mul by discriminate. lia.
+  Qed.
+
+  Lemma n_triples_sumf :
+    n_triples teqb names (nadj teqb g) =
+    sumf (fun v => deg teqb names (nadj teqb g) v * (deg teqb names (nadj teqb g) v - 1) / 2) names.
+  Proof. reflexivity. Qed.
+
+  Lemma qn_ratio : forall c a b, c <> 0 -> b <> 0 ->
+    (inject_Z (Z.of_nat (c * a)) / inject_Z (Z.of_nat (c * b)) == inject_Z (Z.of_nat a) / inject_Z (Z.of_nat b))%Q.
+  Proof.
+    intros c a b Hc Hb. rewrite !Nat2Z.inj_mul, !inject_Z_mult.
+    assert (Hc' : ~ (inject_Z (Z.of_nat c) == 0)%Q).
+    { unfold Qeq. cbn. rewrite Z.mul_1_r. lia. }
+    assert (Hb' : ~ (inject_Z (Z.of_nat b) == 0)%Q).
+    { unfold Qeq. cbn. rewrite Z.mul_1_r. lia. }
+    field. split; assumption.
+  Qed.
+
+  (* transitivity = 3 x triangles / connected triples *)
+  Theorem transitivity_eq_def : forall q,
+    transitivity teqb g = Ok q -> (q == transitivity_def teqb names (nadj teqb g))%Q.
+  Proof.
+    intros q H. unfold transitivity in H.
+    destruct (ensure_undirected g); cbn [bind] in H; try discriminate.
+    destruct (ensure_not_multi_edges g); cbn [bind] in H; try discriminate.
+    destruct (Nat.eqb (length (get_all_nodes g)) 0) eqn:En.
+    - inversion H; subst q. apply Nat.eqb_eq in En.
+      assert (Hnil : names = []).
+      { unfold names, get_all_node_names. unfold get_all_nodes in En. destruct (nodes_vec g); [reflexivity | discriminate]. }
+      unfold transitivity_def, n_triples. rewrite Hnil. cbn. reflexivity.
+    - destruct (get_triangles_and_degrees teqb g None) as [tads | | | ] eqn:Et; cbn [bind] in H; try discriminate.
+      destruct (tads_full teqb teqb_spec g None tads Et) as [full Hfull].
+      pose proof (tads_in_order tads full Et Hfull) as HF.
+      assert (Hrec : forall v t, In v names -> tad_of teqb g full v = Some t ->
+                t_ntri t = 2 * tri teqb names (nadj teqb g) v /\ t_degree t = deg teqb names (nadj teqb g) v).
+      { intros v t Hv Ht. destruct (tad_of_inv full v t Ht) as [hs [Hhs Htad]].
+        apply (tad_for_node_spec full v hs t Hfull Hv Hhs Htad). }
+      rewrite !fold_left_add in H. cbn [Nat.add] in H.
+      rewrite (sum_over_tads (@t_ntri T) (fun v => 2 * tri teqb names (nadj teqb g) v) full tads HF) in H
+        by (intros v t Hv Ht; apply (Hrec v t Hv Ht)).
+      rewrite (sum_over_tads (fun t => t_degree t * sat_sub (t_degree t) 1)
+                 (fun v => deg teqb names (nadj teqb g) v * (deg teqb names (nadj teqb g) v - 1)) full tads HF) in H.
+      2:{ intros v t Hv Ht. destruct (Hrec v t Hv Ht) as [_ Hd]. unfold sat_sub. rewrite Hd. reflexivity. }
+      set (TT := n_triangles teqb names (nadj teqb g)) in *.
+      set (NN := n_triples teqb names (nadj teqb g)) in *.
+      assert (Hs1 : sumf (fun v => 2 * tri teqb names (nadj teqb g) v) names = 2 * (3 * TT)).
+      { unfold TT. rewrite <- (triangle_sum teqb teqb_spec names (nadj teqb g) nadj_sym). apply sumf_scale. }
+      assert (Hs2 : sumf (fun v => deg teqb names (nadj teqb g) v * (deg teqb names (nadj teqb g) v - 1)) names = 2 * NN).
+      { unfold NN. rewrite n_triples_sumf, <- sumf_scale. apply sumf_ext. intros v. apply pred_mul_even. }
+      assert (Hle : 2 * (3 * TT) <= 2 * NN).
+      { rewrite <- Hs1, <- Hs2. apply sumf_le. intros v. apply (tri_le_pairs teqb names (nadj teqb g) v). }
+      rewrite Hs1, Hs2 in H. unfold transitivity_def. fold NN TT.
+      destruct (Nat.eqb (2 * (3 * TT)) 0) eqn:E0.
+      + inversion H; subst q. apply Nat.eqb_eq in E0. assert (TT = 0) by lia.
+        destruct (Nat.eqb NN 0); [reflexivity | ]. rewrite H0. unfold Qdiv. rewrite Qmult_0_l. reflexivity.
+      + apply Nat.eqb_neq in E0. assert (HN : NN <> 0) by lia.
+        assert (Hn0 : Nat.eqb NN 0 = false) by (apply Nat.eqb_neq; exact HN). rewrite Hn0.
+        unfold fdiv in H.
+        assert (Hnz : Qeq_bool (Cluster.qn (2 * NN)) 0 = false).
+        { destruct (Qeq_bool (Cluster.qn (2 * NN)) 0) eqn:Eq; [ | reflexivity].
+          apply Qeq_bool_eq in Eq. unfold Cluster.qn, Qeq in Eq. cbn in Eq. lia. }
+        rewrite Hnz in H.
+        assert (Hq : q = Qred (Cluster.qn (2 * (3 * TT)) / Cluster.qn (2 * NN))%Q) by congruence.
+        rewrite Hq. eapply Qeq_trans; [apply Qred_correct | ].
+        unfold Cluster.qn, ClusterDef.qn. apply qn_ratio; [discriminate | exact HN].
   Qed.
 End ClusterEq.
